@@ -31,6 +31,8 @@ type ReplayOutcome struct {
 type KnownFinding struct {
 	Prop, ID, Desc string
 	Re             *regexp.Regexp
+	Witness        string // pkgdir:Func(args) for witness findings
+	Expect         string // clause that the real function violates on the witness
 }
 
 type KnownFindings struct {
@@ -55,6 +57,28 @@ func LoadKnownFindings(path string) *KnownFindings {
 			body = body[:i]
 		}
 		f := &KnownFinding{Desc: desc}
+		if strings.Contains(body, "|") {
+			// witness form: fields separated by '|'
+			for _, part := range strings.Split(body, "|") {
+				part = strings.TrimSpace(part)
+				if i := strings.Index(part, "="); i > 0 {
+					switch strings.TrimSpace(part[:i]) {
+					case "property":
+						f.Prop = strings.TrimSpace(part[i+1:])
+					case "id":
+						f.ID = strings.TrimSpace(part[i+1:])
+					case "witness":
+						f.Witness = strings.TrimSpace(part[i+1:])
+					case "expect":
+						f.Expect = strings.TrimSpace(part[i+1:])
+					}
+				}
+			}
+			if f.Witness != "" && f.Expect != "" {
+				kf.List = append(kf.List, f)
+			}
+			continue
+		}
 		for _, kv := range strings.Fields(body) {
 			if i := strings.Index(kv, "="); i > 0 {
 				switch kv[:i] {
@@ -79,7 +103,7 @@ func LoadKnownFindings(path string) *KnownFindings {
 
 func (k *KnownFindings) Match(prop string, v *Violation) *KnownFinding {
 	for _, f := range k.List {
-		if f.Prop == prop && f.Re.MatchString(v.Obligation) {
+		if f.Prop == prop && f.Re != nil && f.Re.MatchString(v.Obligation) {
 			return f
 		}
 	}
